@@ -535,7 +535,8 @@ Section WalkLoop.
 
   (* the loop body, run on the directory at rel (children ch): records the actions of the model's
      visit_dir, leaves the names of the kept sub-directories in the list os.walk descends into, and
-     ends by break without --recursive, by continue when the directory is skipped *)
+     ends by break without --recursive.  (Since the repair of F23 a recursive run processes every
+     visited directory, so the continue branch below is never taken by the real body.) *)
   Definition body_ok : Prop :=
     forall rel ch sl log,
       dir_at top rel = Some ch -> level_distinct ch = true ->
@@ -960,14 +961,16 @@ Section Main.
       - apply filter_ext_in'. intros d _. cbn [negb orb]. rewrite andb_true_r. reflexivity. }
     lazymatch goal with |- context [if ws_auto_exclude st then ?a else ?b] =>
       replace (if ws_auto_exclude st then a else b)
-        with (kept, if negb (ws_auto_exclude st) || existsb lc_cmake_suffix fs then CNormal
-                    else if ws_recursive st then CContinue else CBreak)
+        with (kept, if negb (ws_auto_exclude st) || existsb lc_cmake_suffix fs || ws_recursive st
+                    then CNormal else CBreak)
     end.
     2:{ rewrite <- Hkept. destruct (ws_auto_exclude st); [|reflexivity].
         destruct (existsb lc_cmake_suffix fs); [reflexivity|]. destruct (ws_recursive st); reflexivity. }
     unfold visit_dir. cbv zeta. fold files. rewrite <- Hproc.
-    destruct (negb (ws_auto_exclude st) || existsb lc_cmake_suffix fs) eqn:Eproc; cbv iota beta.
-    2:{ cbn [snd fst]. destruct (ws_recursive st); reflexivity. }
+    destruct (negb (ws_auto_exclude st) || existsb lc_cmake_suffix fs || ws_recursive st) eqn:Eproc;
+      cbv iota beta.
+    2:{ cbn [snd fst]. apply orb_false_iff in Eproc. destruct Eproc as [_ Erec]. rewrite Erec.
+        reflexivity. }
     cbn [snd fst].
     lazymatch goal with |- context [py_for (py_sorted fs) ?b ?init] =>
       assert (HX : py_for (py_sorted fs) b init
@@ -1326,6 +1329,16 @@ Module Examples.
            [s"asub"; s"index.rst"]; [s"asub"; s"a.rst"]; [s"asub"; s"c.rst"] ].
   Proof. split; vm_compute; reflexivity. Qed.
 
+  (* F23 repaired: auto-exclusion, no .cmake file directly in the input directory.  The translated
+     source, like the model, writes the top index.rst in a recursive run and nothing otherwise *)
+  Definition tree_f23 : list node := [ F (s"README") [1%N]; D (s"sub") [ F (s"c.cmake") [2%N] ] ].
+  Example run_top_without_cmake :
+    run (mk true true None true) (KDir tree_f23) = model (mk true true None true) (KDir tree_f23)
+    /\ wpaths (run (mk true true None true) (KDir tree_f23))
+       = [ [s"index.rst"]; [s"sub"; s"index.rst"]; [s"sub"; s"c.rst"] ]
+    /\ run (mk true false None true) (KDir tree_f23) = [].
+  Proof. repeat split; vm_compute; reflexivity. Qed.
+
   (* without auto-exclusion nocmake/ gets an index and nocmake/below/ is documented *)
   Example run_rec_out_noauto :
     run (mk true true (Some (s"P")) false) (KDir tree) = model (mk true true (Some (s"P")) false) (KDir tree)
@@ -1579,6 +1592,7 @@ Print Assumptions document_matches_source_output_outside.
 Print Assumptions document_matches_source_links_followed.
 Print Assumptions document_source_gen.
 Print Assumptions excl_with_output_links_dir.
+Print Assumptions Examples.run_top_without_cmake.
 Print Assumptions Examples.run_links_not_followed.
 Print Assumptions Examples.run_links_followed.
 Print Assumptions Examples.os_walk_lists_but_does_not_enter_unfollowed_link.
